@@ -446,6 +446,7 @@ class FnSpec:
         self.head = []
         self.start = []
         self.loops = {}
+        self.loopiters = {}
         self.anchors = []   # (where, k, anchor, text)
         self.closures = []  # (k, orig, new, text)
         self.rules = set()
@@ -466,7 +467,7 @@ def nth_find(text, needle, k):
     return pos
 
 
-def apply_fn(text, spec, ctx, assoc_types=None):
+def apply_fn(text, spec, ctx, assoc_types=None, canary=False):
     """text: verbatim fn item. Returns rewritten+spliced text."""
     text = strip_attrs_and_docs(text, ctx)
     text = strip_pub(text, ctx)
@@ -550,6 +551,23 @@ def apply_fn(text, spec, ctx, assoc_types=None):
         ins.append((s if where == 'before' else e, gtext))
     # loops
     loops = L.find_loops(text)
+    for n, nm in spec.loopiters.items():
+        if n < 1 or n > len(loops):
+            raise ExtractError('fn %s: loopiter %d: function has %d loops' % (spec.name, n, len(loops)))
+        kw = loops[n - 1][0]
+        m = re.compile(r'for\s+(.*?)\s+in\s+', re.S).match(text, kw)
+        if not m:
+            raise ExtractError('fn %s: loopiter %d is not a for loop' % (spec.name, n))
+        pat = m.group(1)
+        if pat == '_':
+            pat = 'verif_unused'
+        repl = 'for %s in %s: ' % (pat, nm)
+        ins_text = text[:kw] + repl + text[m.end():]
+        delta = len(ins_text) - len(text)
+        text = ins_text
+        ins = [(p + delta if p > kw else p, g) for (p, g) in ins]
+        loops = L.find_loops(text)
+        ctx.note('R15', 'for %s in EXPR' % m.group(1), repl + 'EXPR  (named ghost iterator)')
     for n, gtext in spec.loops.items():
         if n < 1 or n > len(loops):
             raise ExtractError('fn %s: loop %d requested, function has %d loops' % (spec.name, n, len(loops)))
@@ -558,6 +576,8 @@ def apply_fn(text, spec, ctx, assoc_types=None):
     body = L.fn_body_brace(text)
     if spec.start:
         ins.append((body + 1, '\n'.join(spec.start)))
+    if canary:
+        ins.append((body + 1, 'proof { assert(false); }'))
     if spec.head:
         ins.append((body, '\n'.join(spec.head) + '\n'))
     ins.sort(key=lambda x: -x[0])
@@ -631,6 +651,10 @@ def parse_fn_directives(lines, i, spec):
         elif d == 'pre{':
             t, i = parse_block(lines, i)
             spec.pre.append(t + '\n')
+        elif d.startswith('loopiter '):
+            _, n, nm = d.split()
+            spec.loopiters[int(n)] = nm
+            i += 1
         elif d.startswith('loop '):
             m = re.match(r'loop (\d+)\{$', d)
             t, i = parse_block(lines, i)
@@ -697,10 +721,7 @@ def process_template(unit, tpl_path=None, canary=False):
         ctx.cur = (path, (owner + '::' if owner else '') + spec.name)
         ctx.items.append({'file': path, 'item': ctx.cur[1], 'sha256': hashlib.sha256(it_src.encode()).hexdigest()[:16],
                           'lines': it_src.count('\n') + 1})
-        text, un = apply_fn(it_src, spec, ctx, assoc_types)
-        if canary:
-            b = L.fn_body_brace(text)
-            text = text[:b + 1] + ' proof { assert(false); } ' + text[b + 1:]
+        text, un = apply_fn(it_src, spec, ctx, assoc_types, canary)
         fns.append(ctx.cur[1])
         for n in un:
             unannot.append('%s loop %d' % (ctx.cur[1], n))
@@ -732,7 +753,8 @@ def process_template(unit, tpl_path=None, canary=False):
                 ctx.items.append({'file': path, 'item': ctx.cur[1], 'sha256': hashlib.sha256(text.encode()).hexdigest()[:16],
                                   'lines': text.count('\n') + 1})
                 text = strip_attrs_and_docs(text, ctx)
-                text = strip_pub(text, ctx)
+                if 'keeppub' not in spec.rules:
+                    text = strip_pub(text, ctx)
                 if 'R9' in spec.rules:
                     text = rule_refcell(text, ctx)
                 out.append(''.join(spec.pre) + text)
@@ -797,6 +819,53 @@ def process_template(unit, tpl_path=None, canary=False):
                     raise ExtractError('unexpected directive inside //@impl: ' + s2)
                 out.append(lines[i])
                 i += 1
+            out.append('}')
+            continue
+        if d.startswith('trait '):
+            # //@trait <file> <name> ... //@endtrait : trait declaration with contracts on its method declarations
+            _, path, name = d.split(None, 2)
+            src, items = load(path)
+            tr = find_item(src, items, 'trait', name, path)
+            sub = L.items_in(src, tr.body_s + 1, tr.e - 1)
+            ctx.cur = (path, 'trait ' + name)
+            header = strip_pub(strip_attrs_and_docs(src[tr.s:tr.body_s], ctx), ctx).strip()
+            i += 1
+            if i < len(lines) and lines[i].strip().startswith('//@header '):
+                header = lines[i].strip()[len('//@header '):]
+                i += 1
+            out.append(header + ' {')
+            emitted = set()
+            while i < len(lines):
+                s2 = lines[i].strip()
+                if s2 == '//@endtrait':
+                    i += 1
+                    break
+                if s2.startswith('//@fn '):
+                    fname = s2[6:].strip()
+                    it = find_item(src, sub, 'fn', fname, path + ' trait ' + name)
+                    spec = FnSpec(fname)
+                    i = parse_fn_directives(lines, i + 1, spec)
+                    ctx.cur = (path, name + '::' + fname)
+                    t = strip_pub(strip_attrs_and_docs(src[it.s:it.e], ctx), ctx).strip()
+                    if not t.endswith(';'):
+                        raise ExtractError('trait fn %s has a default body; not supported' % fname)
+                    t = t[:-1]
+                    if spec.ret:
+                        m = re.search(r'->\s*(.*)$', t, re.S)
+                        if not m:
+                            raise ExtractError('trait fn %s: //@ret without return type' % fname)
+                        t = t[:m.start()] + '-> (%s: %s)' % (spec.ret, m.group(1).strip())
+                    out.append(t + '\n' + '\n'.join(spec.head) + ';')
+                    fns.append(name + '::' + fname + ' (trait contract)')
+                    emitted.add(fname)
+                    continue
+                if s2.startswith('//@'):
+                    raise ExtractError('unexpected directive inside //@trait: ' + s2)
+                out.append(lines[i])
+                i += 1
+            missing = [it.name for it in sub if it.kind == 'fn' and it.name not in emitted]
+            if missing:
+                raise ExtractError('trait %s: methods without contract block: %s' % (name, missing))
             out.append('}')
             continue
         raise ExtractError('unknown directive: ' + s)
